@@ -48,7 +48,7 @@ ASSUMPTIONS = [
     "reset onto an existing column name, duplicate keys, removal of a member of schema-level unique (verdict only)",
 ]
 
-POOL = ["ca", "cb", "cc", "cd", "ce"]
+POOL = ["ca", "cb", "", "cd", "ce"]  # ("" is a legal label: falsy is not the same as absent)
 NEWPOOL = ["na", "nb", "nc", "nd"]
 IDXPOOL = ["ia", "ib", "ic"]
 
@@ -81,7 +81,7 @@ def _component(draw, name, cid, p, backend, column=True, plain=False):
     }
     if column:
         c["required"] = not flag(0.2)
-        c["regex"] = flag(0.15)
+        c["regex"] = flag(0.15) and name != ""  # (the empty pattern would match every column)
     return c
 
 
@@ -284,6 +284,9 @@ def programs(draw, backend="pandas"):
         except M.Unspecified:
             ops.append(op)
             break
+        if any(c.get("regex") and c["name"] == "" for c in new["columns"]):
+            pending_inverse = None
+            continue  # (an empty regular expression selects every column: not a meaningful schema)
         # inverse request straight after (inverse laws)
         if flag(0.3):
             k = op["op"]
@@ -468,10 +471,31 @@ def verdict(schema, df):
     return "internal:" + o["exc_type"], f"{o.get('where')}: {o.get('msg')}"
 
 
+_ALIASED = []  # filled by _call, read (and cleared) by evaluate: components of a result that alias the caller's objects
+
+
 def _call(S, op, cur, backend):
     k = op["op"]
     if k == "add_columns":
-        return S.add_columns({c["name"]: M.build_column(c, backend) for c in op["cols"]})
+        given = {c["name"]: M.build_column(c, backend) for c in op["cols"]}
+        for n, col in given.items():
+            if getattr(col, "name", None) is None and n is not None:
+                try:
+                    col.name = n  # (a column that already carries the name of its key is the common way to write it)
+                except Exception:  # noqa: BLE001
+                    pass
+        R = S.add_columns(given)
+        # the result owns its components: editing the objects that were passed in afterwards must not reach it
+        try:
+            before = fp.fp_json(R)
+            for col in given.values():
+                col.nullable = not col.nullable
+                col.name = "zz__edited_by_caller"
+            if fp.fp_json(R) != before:
+                _ALIASED.append(sorted(map(str, given)))
+        except Exception:  # noqa: BLE001
+            pass
+        return R
     if k == "remove_columns":
         return S.remove_columns(list(op["cols"]))
     if k == "select_columns":
@@ -600,6 +624,9 @@ def evaluate(case):
         ev.labels.append(f"op={k}")
         executed += 1
         info["op"] = k
+        if _ALIASED:
+            ev.add(f"result-aliases-callers-objects:{k}", {"step": step, "op": op, "columns": _ALIASED[-1]})
+            del _ALIASED[:]
         for n in info["touched"] + info["moved"]:
             c = next((c for c in M.components(new_spec) if c["name"] == n), None)
             if c is not None and _nondefault(c) >= 3:
